@@ -105,9 +105,35 @@ def readable(rec):
       f"cfg {json.dumps(rec['cfg'])}",
       f"decisions ({len(rec['decisions'])}, non-zero = forced switch/choice): "
       f"{rec['decisions'][:400]}",
-      'trace tail (r=run tid, b=block, w=wake, timer, spawn, done):',
   ]
-  lines += ['  ' + ' '.join(e) for e in rec.get('tail', [])[-80:]]
+  names = rec.get('thread_names', {})
+  if names:
+    lines.append('threads: ' + ', '.join(f'T{k}={v}' for k, v in names.items()))
+  if rec.get('blocked_at_end'):
+    lines.append('threads still alive at the end (state, why, innermost frames):')
+    for t in rec['blocked_at_end']:
+      lines.append(f"  T{t.get('tid')} {t.get('name')}: {t.get('state')} "
+                   f"[{t.get('why')}] {' < '.join(t.get('stack', [])[:4])}")
+  lines.append('trace tail, consecutive steps of one thread folded '
+               '(run Tn xk = k scheduling steps; b=block, w=wake, timer, spawn, done):')
+  folded, last, cnt = [], None, 0
+  for e in rec.get('tail', [])[-160:]:
+    if e[0] == 'r':
+      if last == e[1]:
+        cnt += 1
+        continue
+      if last is not None:
+        folded.append(f'run T{last}({names.get(last, "?")}) x{cnt}')
+      last, cnt = e[1], 1
+    else:
+      if last is not None:
+        folded.append(f'run T{last}({names.get(last, "?")}) x{cnt}')
+        last, cnt = None, 0
+      tid = e[1] if len(e) > 1 else ''
+      folded.append(f"{e[0]} T{tid}({names.get(tid, '?')}) {' '.join(e[2:])}")
+  if last is not None:
+    folded.append(f'run T{last}({names.get(last, "?")}) x{cnt}')
+  lines += ['  ' + x for x in folded[-70:]]
   return '\n'.join(lines) + '\n'
 
 
